@@ -201,9 +201,12 @@ fn history_check<W: Write>(
         crate::log::take();
         writeln!(out, "#HP\t{}", hit).unwrap();
     }
-    for &k in order.iter().chain(order.iter().rev()) {
+    for (n_exec, &k) in order.iter().chain(order.iter().rev()).enumerate() {
         let r = &records[k];
-        let got = dispatch(&r.0, &r.2, &r.3, r.4).unwrap_or_default();
+        // the same text at another address (and another alignment): a slice of a larger buffer
+        let pad = n_exec % 8;
+        let buf = format!("{}{}", "#".repeat(pad), r.3);
+        let got = dispatch(&r.0, &r.2, &buf[pad..], r.4).unwrap_or_default();
         seq_runs += 1;
         if got != r.5 {
             diffs.push(format!("#HD\t{}\t{}\tsequential\t{}", r.0, r.1, got.replace('\t', " | ")));
